@@ -159,6 +159,18 @@ package astits
 //@   let oPW = oLTW + ite(hasLTW, 2, 0)
 //@   let oSS = oPW + ite(hasPW, 3, 0)
 //@   let consumed = ite(L > 0, ite(hasExt, ite(extLen > 0, oSS + ite(hasSS, 5, 0), oExt + 1), oExt), 1)
+//@   split L > 0, hasExt, extLen > 0, hasSS
+//@   at read PacketAdaptationField.Length#0 assert fLen: a.Length == L
+//@   at read PacketAdaptationField.HasPCR#0 assert fPCR: a.HasPCR == hasPCR
+//@   at read PacketAdaptationField.HasOPCR#0 assert fOPCR: a.HasOPCR == hasOPCR
+//@   at read PacketAdaptationField.HasSplicingCountdown#0 assert fSplice: a.HasSplicingCountdown == hasSplice
+//@   at read PacketAdaptationField.HasTransportPrivateData#0 assert fPriv: a.HasTransportPrivateData == hasPriv
+//@   at read PacketAdaptationField.TransportPrivateDataLength#0 assert fPrivLen: a.TransportPrivateDataLength == privLen
+//@   at read PacketAdaptationField.HasAdaptationExtensionField#0 assert fExt: a.HasAdaptationExtensionField == hasExt
+//@   at read PacketAdaptationExtensionField.Length#0 assert fExtLen: a.AdaptationExtensionField.Length == extLen
+//@   at read PacketAdaptationExtensionField.HasLegalTimeWindow#0 assert fLTW: a.AdaptationExtensionField.HasLegalTimeWindow == hasLTW
+//@   at read PacketAdaptationExtensionField.HasPiecewiseRate#0 assert fPW: a.AdaptationExtensionField.HasPiecewiseRate == hasPW
+//@   at read PacketAdaptationExtensionField.HasSeamlessSplice#0 assert fSS: a.AdaptationExtensionField.HasSeamlessSplice == hasSS
 //@   at read PacketAdaptationField.HasOPCR#0 assert cutOPCR: i.offset == o + oOPCR
 //@   at read PacketAdaptationField.HasSplicingCountdown#0 assert cutSplice: i.offset == o + oSplice
 //@   at read PacketAdaptationField.HasTransportPrivateData#0 assert cutPriv: i.offset == o + oPriv
@@ -250,3 +262,28 @@ package astits
 //@   ensures empty: o >= len(i.bs) ==> bs == nil && len(bs) == 0 && i.offset == o
 //@   ensures some: o < len(i.bs) ==> len(bs) == len(i.bs) - o && fresh(bs) && i.offset == len(i.bs)
 //@   ensures content: o < len(i.bs) ==> bytesOf(bs) == old(bytesOf(i.bs[i.offset:]))
+
+// parsePacket (2.4.3.2): sync byte at 0, then the last 187 bytes of the (possibly
+// larger than 188 bytes) packet buffer hold header, adaptation field and payload.
+//@ func parsePacket
+//@   requires itOK(i) && i.offset == 0 && len(i.bs) >= 188
+//@   modifies i.offset
+//@   let N = len(i.bs)
+//@   let h0 = old(i.bs[len(i.bs) - 187])
+//@   let h1 = old(i.bs[len(i.bs) - 186])
+//@   let h2 = old(i.bs[len(i.bs) - 185])
+//@   let hasAF = bit(h2, 0x20)
+//@   let hasPL = bit(h2, 0x10)
+//@   let afLen = int(old(i.bs[len(i.bs) - 184]))
+//@   let plOff = N - 184 + ite(hasAF, 1 + afLen, 0)
+//@   ensures [C11,C08] sync: old(i.bs[0]) != 0x47 ==> p == nil && err == ErrPacketMustStartWithASyncByte
+//@   ensures [C11,C16,C19] fresh: err == nil ==> p != nil && fresh(p)
+//@   ensures [C19] skipped: err == errSkippedPacket ==> p == nil
+//@   ensures [C11,C08] pid: err == nil ==> p.Header.PID == u16(h0 & 0x1f) << 8 | u16(h1)
+//@   ensures [C11,C08] hdrflags: err == nil ==> p.Header.TransportErrorIndicator == bit(h0, 0x80) && p.Header.PayloadUnitStartIndicator == bit(h0, 0x40) && p.Header.TransportPriority == bit(h0, 0x20)
+//@   ensures [C11,C08] hdrctl: err == nil ==> p.Header.TransportScramblingControl == h2 >> 6 && p.Header.HasAdaptationField == hasAF && p.Header.HasPayload == hasPL && p.Header.ContinuityCounter == h2 & 0x0f
+//@   ensures [C11,C08,C02] af: err == nil ==> (p.AdaptationField != nil) == hasAF
+//@   ensures [C11,C08,C02] aflen: err == nil && hasAF ==> p.AdaptationField.Length == afLen
+//@   ensures [C11,C08,C02,C01] payload: err == nil && hasPL && plOff < N ==> len(p.Payload) == N - plOff && bytesOf(p.Payload) == old(bytesOf(i.bs[plOff:]))
+//@   ensures [C11,C16,C02] payloadfresh: err == nil && hasPL && plOff < N ==> fresh(p.Payload)
+//@   ensures [C11,C02] nopayload: err == nil && !(hasPL && plOff < N) ==> len(p.Payload) == 0 && p.Payload == nil
